@@ -15,7 +15,8 @@ EXTENDS Integers, Sequences, FiniteSets, TLC, Json
 
 CONSTANTS MaxToks, MaxDepth
 
-NumLexemes == <<"0", "-0", "7", "12", "-305", "0.5", "-3.25", "10.001", "1e5", "1E5", "2e+3", "2E-3", "0e0", "-1.5e-2", "6.02E+23", "100">>
+NumLexemes == <<"0", "-0", "7", "12", "-305", "0.5", "-3.25", "10.001", "1e5", "1E5", "2e+3", "2E-3", "0e0", "-1.5e-2", "6.02E+23", "100",
+                "1e00", "2E+05", "-1.5e-007", "0.0", "1.50", "10e010", "0.000", "9007199254740993", "-0.0e-0", "1E-0", "123456789012345678901234567890">>
 StrLexemes == <<"\"\"", "\"a\"", "\"a b\"", "\"\\n\\t\\r\\b\\f\"", "\"\\\"\\\\\\/\"", "\"\\u00e9\\u0041\"", "\"\\uD83D\\uDE00\"", "\"{}[],:\"", "\"null\"", "\" \"">>
 LitLexemes == <<"true", "false", "null">>
 KeyLexemes == <<"\"a\"", "\"b\"", "\"\"", "\"k\\n\"", "\"a\"">>     \* duplicate names are legal JSON
